@@ -325,6 +325,13 @@ def main():
             c['family'] = fam.name
             c['mode'] = 'read'
             cases.append(c)
+        seen = set()
+        uniq = []
+        for c in cases:
+            if c['text'] not in seen:
+                seen.add(c['text'])
+                uniq.append(c)
+        cases = uniq
         results = p21run.run_many(lib, cases, chunksize=16)
         badbase = set()
         for c, r in zip(cases, results):
